@@ -11,7 +11,8 @@ from . import c04, c06, c08
 THEOREMS = ["C19_torn_counter", "C19_truncated_counter", "splitRecs_prefix", "C19_records_prefix", "image_single",
             "decInts_getD", "parseHdr_fields", "mix_slice", "encForm_slices", "C19_header_rewrite",
             "C19_rewrite_session", "C19_short_file", "image_seq", "C19_writer_crash", "C19_intact_header",
-            "image_over", "C19_appender_crash", "C19_truncated"]
+            "image_over", "C19_appender_crash", "C19_truncated", "C19_rewrite_session_cut", "C19_writer_crash_torn",
+            "C19_appender_crash_torn"]
 hx = c08.hx
 
 
